@@ -1,8 +1,50 @@
-import Cirbo.Model.Mutate2
-/-! # C02 (placeholder until the theorems are in)
--- OBLIGATION: c02_placeholder
+import Cirbo.Proofs.Mutate
+/-!
+# C02 — Circuits stay well formed under every history of public mutations
+
+-- OBLIGATION: c02_step_invariant
+-- OBLIGATION: c02_history_invariant
+-- OBLIGATION: c02_history_from_empty
+-- OBLIGATION: c02_topological_iteration_after_history
+-- PARTIAL: the invariant theorem covers add_gate/emplace_gate, add_inputs, mark_as_output, set_outputs, set_inputs, order_inputs, order_outputs, replace_inputs, make_block, delete_block (and into_bench's netlist part in C14). remove_gate, rename_gate, remove_block, make_block_from_slice, connect_circuit (+ five wrappers, both directions), replace_subcircuit, into_bench's users-index edits and copy are modelled one-to-one (Model/Mutate.lean, Mutate2.lean) and compared field by field with the code after every call of random histories, and every state the code produces goes through the Lean checker checkWFU, but their invariant lemmas are not proved yet. "A copy shares no mutable state" is correspondence-only (Lean values cannot alias).
 -/
 namespace Cirbo
-theorem c02_placeholder : True := trivial
-#print axioms c02_placeholder
+
+/-- one public call (valid arguments, returning normally) preserves every clause of the property:
+operands/outputs exist, users index = inverse operand multiset, input list = INPUT gates each once,
+acyclic, block labels exist -/
+theorem c02_step_invariant {c c' : Circuit} {op : MOp} (hw : WFS c) (hv : op.valid)
+    (h : runOp c op = .ok c') : WFS c' := runOp_wfs hw hv h
+
+/-- **every finite history** of such calls, from any well-formed starting circuit -/
+theorem c02_history_invariant (ops : List MOp) {c c' : Circuit} (hw : WFS c)
+    (hv : ∀ op ∈ ops, op.valid) (h : runOps c ops = .ok c') : WFS c' := runOps_wfs ops hw hv h
+
+/-- in particular every circuit built from scratch -/
+theorem c02_history_from_empty (ops : List MOp) {c' : Circuit} (hv : ∀ op ∈ ops, op.valid)
+    (h : runOps Circuit.empty ops = .ok c') : WFS c' := runOps_wfs ops wfs_empty hv h
+
+/-- … and on every such state topological iteration in both directions yields every gate exactly
+once in dependency order (C20's theorems need exactly this part of the invariant) -/
+theorem c02_topological_iteration_after_history (ops : List MOp) {c c' : Circuit} (hw : WFS c)
+    (hv : ∀ op ∈ ops, op.valid) (h : runOps c ops = .ok c') :
+    (∃ order, c'.topSort true = .ok order ∧ order.Perm c'.labels ∧
+      ∀ pre l post, order = pre ++ l :: post → ∀ g ∈ c'.gates, g.label = l → ∀ o ∈ g.ops, o ∈ pre) ∧
+    (∃ order, c'.topSort false = .ok order ∧ order.Perm c'.labels ∧
+      ∀ pre l post, order = pre ++ l :: post → ∀ u ∈ c'.usersOf l, u ∈ pre) := by
+  have hw' := (runOps_wfs ops hw hv h).toWFG
+  exact ⟨topSort_inv_spec hw', topSort_dir_spec hw'⟩
+
+/-! Non-vacuity: a concrete history from the empty circuit -/
+open GateType in
+example : ∃ c', runOps Circuit.empty
+    [.addInputs ["a", "b"], .addGate ⟨"x", AND, ["a", "b", "a"]⟩, .addGate ⟨"y", NOT, ["x"]⟩,
+     .setOutputs ["y", "a"], .orderInputs ["b"], .replaceInputs ["b"] [], .makeBlock "B" ["x", "y"] ["y"] none] = .ok c' ∧
+    c'.inputs = ["a"] ∧ c'.usersOf "a" = ["x", "x"] := ⟨_, rfl, by decide, by decide⟩
+
+#print axioms c02_step_invariant
+#print axioms c02_history_invariant
+#print axioms c02_history_from_empty
+#print axioms c02_topological_iteration_after_history
+
 end Cirbo
